@@ -60,9 +60,12 @@ fn max_one_either_side(
         formatted_tokens
             .get_formatting_data(token_index)
             .map(|data| data.spaces_before.min(1)),
+        // Any whitespace before the next token counts as one space, including a line break:
+        // `spaces_before` only counts the blanks after the last line break, so a token in the
+        // first column of the next line would otherwise be joined to this one when unwrapped.
         formatted_tokens
-            .get_formatting_data(token_index + 1)
-            .map(|data| data.spaces_before.min(1)),
+            .get_token(token_index + 1)
+            .map(|(token, _)| u16::from(!token.get_leading_whitespace().is_empty())),
     )
 }
 
